@@ -80,7 +80,44 @@ func TestVerifC01(t *testing.T) {
 			}
 		}
 	}
-	vWrite(t, []string{"the table interpreter is a hand transcription of parse/lalr/gotoState in go_parser.go.tmpl", "language oracle: Earley recogniser over grammars whose nonterminals are all productive and reachable"}, ck)
+	// A structured family the random generator rarely draws: the input nonterminal S also starts a
+	// rule (A: S x y) that is reached both from the initial state and after a prefix (S: t A t'), so
+	// the state entered on S from the initial state has the same core as a state entered on S
+	// elsewhere; only the former may accept.
+	fam := vNew("C01/input-nonterminal-reused", "grammars S: A x x | y A y | z ; A: S u v over 2 terminals (all choices of x, y, z, u, v), all token strings of length <=6, options {plain, optimize, minimize}", true,
+		"Compile", "compiler.computeStates", "compiler.addShift")
+	for code := 0; code < 32; code++ {
+		tsym := func(bit uint) Sym { return Sym(1 + (code>>bit)&1) }
+		hg := &hGrammar{nt: 3, nn: 2, inputs: []Input{{Nonterminal: 3, Eoi: true}}}
+		hg.rules = []Rule{{LHS: 3, RHS: []Sym{4, tsym(0), tsym(0)}}, {LHS: 3, RHS: []Sym{tsym(1), 4, tsym(1)}}, {LHS: 3, RHS: []Sym{tsym(2)}}, {LHS: 4, RHS: []Sym{3, tsym(3), tsym(4)}}}
+		g := hg.build()
+		if _, err, pmsg := hCompile(g, Options{}); err != nil || pmsg != "" {
+			fam.Case(false)
+			continue
+		}
+		fam.Case(true)
+		if code < 2 {
+			fam.Sample(hg.String())
+		}
+		e := newEarley(hg, hg.inputs[0].Nonterminal)
+	famOpts:
+		for _, o := range []Options{{}, {Optimize: true}, {MinimizeDFA: true}} {
+			tb, err, pmsg := hCompile(hg.build(), o)
+			if pmsg != "" || err != nil {
+				fam.Failf(hg.String(), "Compile with %+v: err=%v panic=%s", o, err, pmsg)
+				break
+			}
+			for _, w := range hStrings(hg.nt, 6) {
+				wantAcc, _ := hExpect(e, hg.inputs[0], w)
+				tr := tb.hRun(g, 0, w, hRunOpts{optimized: o.Optimize})
+				if tr.bad != "" || tr.accept != wantAcc {
+					fam.Failf(hg.String(), "opts %+v tokens %q: parser accepts=%v (%s), grammar says %v", o, hStr(w), tr.accept, tr.bad, wantAcc)
+					break famOpts
+				}
+			}
+		}
+	}
+	vWrite(t, []string{"the table interpreter is a hand transcription of parse/lalr/gotoState in go_parser.go.tmpl", "language oracle: Earley recogniser over grammars whose nonterminals are all productive and reachable"}, ck, fam)
 }
 
 // ---------- C03 ----------
